@@ -40,6 +40,21 @@ func (s Script) Representable() bool {
 	if txtarref.HasMarkerLine([]byte(s.Text)) || (s.Text != "" && !strings.HasSuffix(s.Text, "\n")) {
 		return false
 	}
+	// a background helper announces itself through a ready file; the script has to wait for that file on the very next
+	// line, or what the following lines see depends on how fast the helper starts (the generator always emits the
+	// pair; the shrinker must not take it apart)
+	lines := strings.Split(s.Text, "\n")
+	for i, l := range lines {
+		if j := strings.Index(l, "--ready="); j >= 0 {
+			name := l[j+len("--ready="):]
+			if k := strings.IndexAny(name, " \t"); k >= 0 {
+				name = name[:k]
+			}
+			if i+1 >= len(lines) || strings.TrimSpace(lines[i+1]) != "exec vmain waitfile "+name {
+				return false
+			}
+		}
+	}
 	for _, f := range s.Files {
 		if f.Name == "" || strings.TrimSpace(f.Name) != f.Name || strings.ContainsAny(f.Name, "\n") {
 			return false
@@ -126,7 +141,10 @@ type gen struct {
 }
 
 var contents = []string{"hello world\n", "alpha\nbeta\ngamma\n", "", "one two\none two\nthree\n", "x\n", "line with $VAR and 'quote'\n", ">quoted line\n>second\n", "HOME=$HOME\nwork=${WORK}\n", "tab\there\n", "alpha\nbeta\ngamma\n"}
-var fileNames = []string{"a.txt", "b.txt", "sub/c.txt", "sub/deep/d.txt", "e", "want.txt", "golden", "dir2/f.txt", "$WORK/g.txt", "with space.txt"}
+
+// (the last two are ordinary files that happen to be called like the captured output of the last command: only cmp, cp and
+// stdin give those names their special meaning - and only in the first argument position - grep, exists, rm, mv do not)
+var fileNames = []string{"a.txt", "b.txt", "sub/c.txt", "sub/deep/d.txt", "e", "want.txt", "golden", "dir2/f.txt", "$WORK/g.txt", "with space.txt", "stdout", "stderr"}
 
 func genArchive(t *rapid.T) []tsmodel.ArchiveFile {
 	n := rapid.IntRange(0, 6).Draw(t, "nfiles")
@@ -217,6 +235,9 @@ func (g *gen) candidate() string {
 	}
 	if g.p.CustomCmds {
 		kinds = append(kinds, "probe", "probe", "probe", "failcmd", "cemit", "setenv", "defer", "getenv")
+		if g.o.Exec {
+			kinds = append(kinds, "cexec", "cexec")
+		}
 	}
 	kinds = append(kinds, g.o.ExtraKinds...)
 	k := rapid.SampledFrom(kinds).Draw(t, "kind")
@@ -417,6 +438,23 @@ func (g *gen) candidate() string {
 			return g.simple()
 		}
 		return neg + rapid.SampledFrom([]string{"skip", "skip 'not today'"}).Draw(t, "skip")
+	case "cexec":
+		// a program run by a custom command through TestScript.Exec; now and then with input set up first
+		pre := ""
+		if rapid.IntRange(0, 2).Draw(t, "withstdin") == 0 {
+			if p, ok := g.existing("file"); ok {
+				pre = "stdin " + Q(g.pathTo(p)) + "\n"
+			}
+		}
+		if rapid.IntRange(0, 11).Draw(t, "missingprog") == 0 {
+			return neg + "cexec nosuchprog arg"
+		}
+		post := ""
+		if pre != "" && rapid.Bool().Draw(t, "thencat") {
+			// the input was used up by the custom command's program: a later program sees none
+			post = "\nexec vmain cat\n! stdout ."
+		}
+		return pre + neg + "cexec vmain " + g.helperArgs() + post
 	case "exec", "helpercmd":
 		prefix := "exec vmain "
 		if k == "helpercmd" {
